@@ -122,10 +122,9 @@ fn created(tag: usize, id: Option<u64>) {
         match id {
             Some(id) => {
                 let e = l.live.entry((tag, id)).or_insert(0);
+                // identities may legitimately repeat (a mutated serialization can carry the same
+                // number twice): the ledger is a multiset
                 *e += 1;
-                if *e > 1 {
-                    l.errors.push(format!("duplicate-identity {}:{}", tag, id));
-                }
             }
             None => *l.zst.entry(tag).or_insert(0) += 1,
         }
